@@ -8,7 +8,7 @@ for d in sorted(glob.glob(os.path.join(HERE, "seeded", "*"))):
         continue
     sid = os.path.basename(d)
     meta = json.load(open(os.path.join(d, "meta.json")))
-    title = (meta.get("title") or "")[:110]
+    title = (meta.get("title") or "")[:110].replace("|", "/")
     res = {}
     for f in sorted(glob.glob(os.path.join(d, "result*.json"))):
         r = json.load(open(f))
@@ -16,7 +16,10 @@ for d in sorted(glob.glob(os.path.join(HERE, "seeded", "*"))):
     cells = []
     for k, r in res.items():
         cells.append(f"{k}: {'caught' if r.get('detected') else 'missed'} ({r['check']['tier']})")
-    main = res.get(meta["property"]) or {}
+    main = dict(res.get(meta["property"]) or {})
+    sj = os.path.join(d, "suite.json")
+    if os.path.exists(sj):
+        main["suite_passes"] = json.load(open(sj)).get("suite_passes")
     rows.append((sid, title, "yes" if main.get("demo_confirms") else ("n/a" if "demo_confirms" not in main else "no"),
                  {True: "yes", False: "no", None: "-"}[main.get("suite_passes")], "; ".join(cells)))
 print("| id | change | demo confirmed | suite passes with change | checks |")
